@@ -864,6 +864,9 @@ func handleMessage(peer *Peer, m protocol.Message) error {
 		writeEvent(peer, TorPeerBitmap{peer, peer.bitmap.Copy(), true})
 		maybeInterested(peer)
 	case protocol.Request:
+		if m.Length > 128*1024 {
+			return errors.New("request too long")
+		}
 		if peer.Info == nil || peer.amUnchoking == 0 {
 			return reject(peer, m.Index, m.Begin, m.Length)
 		}
